@@ -4,6 +4,7 @@ CONSTANTS
   Threads <- MCThreads
   Thr = 2
   Tol = 2
+  Fresh = TRUE
   Credits <- MCCredits
   Pays <- MCPays
   Reserves <- MCReserves
